@@ -117,6 +117,10 @@ def sweep(ctx, n):
                 for j in range(m):
                     loc = ori[j].inv().apply(V[which == j] - pos[j])
                     if len(loc) == 0:
+                        # a pose identical to an earlier one (rotating in place on a wiper path: +a, -a, +a) draws the same vertices again;
+                        # they were all attributed to the earlier index above (strict `<`), which is not a missing frame
+                        if any(np.allclose(pos[j], pos[q], atol=1e-12) and np.allclose(ori[j].as_matrix(), ori[q].as_matrix(), atol=1e-12) for q in range(j)):
+                            continue
                         bad(f"frame-missing:{cls}", f"no drawn vertices for path index {j}")
                         break
                     ext = np.asarray(kw["dimension"]) / 2 if cls == "Cuboid" else (np.array([kw["dimension"][0] / 2] * 2 + [kw["dimension"][1] / 2]) if cls == "Cylinder" else np.full(3, kw["diameter"] / 2))
